@@ -346,8 +346,9 @@ Section Loop.
         unfold E in L at 1.
         destruct (k_exists p (now s)) eqn:KE.
         * assert (NN : p_kind p <> NeverExisted /\ ended_by p (now s) = false).
-          { unfold k_exists in KE. destruct (p_kind p); try discriminate;
-              (split; [discriminate|]); destruct (ended_by p (now s)); try reflexivity; discriminate. }
+          { assert (NC : p_kind p <> Child) by (apply I; reflexivity).
+            unfold k_exists in KE. destruct (p_kind p); try discriminate; [contradiction|].
+            (split; [discriminate|]); destruct (ended_by p (now s)); try reflexivity; discriminate. }
           destruct (expired tmo stop s) eqn:X.
           -- inversion L. subst r s'. destruct (expired_true _ X) as (t & T & Le).
              rewrite (timeout_exc_some _ T).
@@ -456,7 +457,7 @@ Proof.
   intros p c0 tmo fuel t0 o' t' sl WF H.
   destruct (process_wait_fresh _ _ _ _ _ _ _ _ _ WF H) as [(_ & X & _)|(_ & s' & P & -> & -> & _)]; [discriminate|].
   destruct P as (_ & _ & _ & _ & _ & _ & K & Ex & AO). split; [exact K|]. split.
-  - unfold k_exists in Ex. destruct (p_kind p); [contradiction| |left; reflexivity].
+  - unfold k_exists in Ex. destruct (p_kind p); [discriminate| |left; reflexivity].
     right. apply negb_false_iff in Ex. unfold ended_by in Ex. destruct (p_exit p) as [T|]; [|discriminate].
     exists T. split; [reflexivity|]. apply Qle_bool_iff. exact Ex.
   - intros A B. destruct (AO A B) as [C D]. split; [exact C|]. rewrite D. reflexivity.
